@@ -208,8 +208,204 @@ def generate(repo):
     return "\n".join(L) + "\n", p, ref
 
 
+# ----------------------------------------------------------------------------- conversion functions
+FUNCS = ("convert_mass", "convert_length", "convert_vel", "convert_acc", "convert_G", "units_convert_particle")
+TABLE_SHORT = {"lengths_SI": "L", "times_SI": "T", "masses_SI": "M"}
+LEAN_NAME = {"convert_mass": "genConvertMass", "convert_length": "genConvertLength", "convert_vel": "genConvertVel",
+             "convert_acc": "genConvertAcc", "convert_G": "genConvertG", "units_convert_particle": "genConvertParticle"}
+PFIELDS = ["m", "x", "y", "z", "r", "vx", "vy", "vz", "ax", "ay", "az"]
+
+
+class FnError(Exception):
+    pass
+
+
+def _subscripts(fn):
+    """(table, name) pairs `tab[name]` used anywhere in the function body, in order of appearance"""
+    out = []
+    for n in ast.walk(fn):
+        if isinstance(n, ast.Subscript) and isinstance(n.value, ast.Name) and n.value.id in TABLE_SHORT \
+                and isinstance(n.slice, ast.Name):
+            if (n.value.id, n.slice.id) not in out:
+                out.append((n.value.id, n.slice.id))
+    return out
+
+
+def translate_functions(path):
+    """Lean source of the conversion functions of units.py, translated statement by statement.
+    A unit-name parameter `u` that the body uses as `tab[u]` becomes the parameter `X_u : K` (X = L, T, M)
+    holding that table value; module-level numbers (G_SI) become parameters; calls to other conversion
+    functions become applications of their translations; `x**n` becomes `ScalarP.powi x n`."""
+    src = open(path).read()
+    tree = ast.parse(src)
+    fns = {n.name: n for n in tree.body if isinstance(n, ast.FunctionDef)}
+    sigs = {}      # python name -> list of ('val', pyname) | ('unit', table, pyname) | ('global', name)
+    out, errors = [], []
+
+    def unit_names_of(fn):
+        """names bound to unit names: parameters subscripting a table, or unpacked from a parameter"""
+        return {nm for _, nm in _subscripts(fn)}
+
+    def build_sig(name):
+        fn = fns[name]
+        params = [a.arg for a in fn.args.args]
+        subs = _subscripts(fn)
+        unitnames = []
+        # tuple-unpacked unit names: `new_l, new_t, new_m = newunits`
+        unpacked = {}
+        for st in fn.body:
+            if isinstance(st, ast.Assign) and len(st.targets) == 1 and isinstance(st.targets[0], ast.Tuple) \
+                    and isinstance(st.value, ast.Name) and st.value.id in params:
+                unpacked[st.value.id] = [e.id for e in st.targets[0].elts if isinstance(e, ast.Name)]
+        sig = []
+        for p_ in params:
+            names = unpacked.get(p_, [p_])
+            used = False
+            for nm in names:
+                tabs = [t for t, n2 in subs if n2 == nm]
+                # names handed on to other conversion functions count through the callee's signature
+                for c_ in ast.walk(fn):
+                    if isinstance(c_, ast.Call) and isinstance(c_.func, ast.Name) and c_.func.id in fns and c_.func.id in FUNCS:
+                        if c_.func.id not in sigs:
+                            build_sig(c_.func.id)
+                        csig = sigs[c_.func.id]
+                        cparams = [a.arg for a in fns[c_.func.id].args.args]
+                        for ai, a_ in enumerate(c_.args):
+                            if isinstance(a_, ast.Name) and a_.id == nm and ai < len(cparams):
+                                for ent in csig:
+                                    if ent[0] == "unit" and ent[3] == cparams[ai] and ent[1] not in tabs:
+                                        tabs.append(ent[1])
+                for t in ("lengths_SI", "times_SI", "masses_SI"):
+                    if t in tabs:
+                        sig.append(("unit", t, nm, p_ if p_ in unpacked else nm))
+                        used = True
+            if not used and p_ not in unpacked:
+                sig.append(("val", p_))
+        # module-level numbers
+        for n in ast.walk(fn):
+            if isinstance(n, ast.Name) and n.id == "G_SI" and ("global", "G_SI") not in sig:
+                sig.insert(0, ("global", "G_SI"))
+        sigs[name] = sig
+        return sig
+
+    def lean_param(ent):
+        if ent[0] == "val":
+            return ent[1]
+        if ent[0] == "global":
+            return ent[1]
+        return TABLE_SHORT[ent[1]] + "_" + ent[2]
+
+    def expr(e, name, locs, pobj):
+        if isinstance(e, ast.Name):
+            if e.id in locs or ("val", e.id) in sigs[name] or ("global", e.id) in sigs[name]:
+                return e.id
+            raise FnError("%s: unknown name %s" % (name, e.id))
+        if isinstance(e, ast.Constant) and isinstance(e.value, int) and not isinstance(e.value, bool) and e.value >= 0:
+            return "(Scalar.ofNat %d)" % e.value
+        if isinstance(e, ast.Attribute) and isinstance(e.value, ast.Name) and e.value.id == pobj and e.attr in PFIELDS:
+            return "%s.%s" % (pobj, e.attr)
+        if isinstance(e, ast.Subscript) and isinstance(e.value, ast.Name) and e.value.id in TABLE_SHORT and isinstance(e.slice, ast.Name):
+            return TABLE_SHORT[e.value.id] + "_" + e.slice.id
+        if isinstance(e, ast.BinOp):
+            if isinstance(e.op, ast.Pow):
+                if isinstance(e.right, ast.Constant) and isinstance(e.right.value, int) and 0 <= e.right.value <= 9:
+                    return "(ScalarP.powi %s %d)" % (expr(e.left, name, locs, pobj), e.right.value)
+                raise FnError("%s: power with a non-literal exponent" % name)
+            ops = {ast.Mult: "*", ast.Div: "/", ast.Add: "+", ast.Sub: "-"}
+            if type(e.op) in ops:
+                return "(%s %s %s)" % (expr(e.left, name, locs, pobj), ops[type(e.op)], expr(e.right, name, locs, pobj))
+            raise FnError("%s: operator %s" % (name, type(e.op).__name__))
+        if isinstance(e, ast.Call) and isinstance(e.func, ast.Name) and e.func.id in FUNCS and e.func.id in fns and not e.keywords:
+            callee = e.func.id
+            if callee not in sigs:
+                build_sig(callee)
+            cparams = [a.arg for a in fns[callee].args.args]
+            if len(e.args) != len(cparams):
+                raise FnError("%s: call of %s with %d arguments" % (name, callee, len(e.args)))
+            amap = dict(zip(cparams, e.args))
+            args = []
+            for ent in sigs[callee]:
+                if ent[0] == "val":
+                    args.append(expr(amap[ent[1]], name, locs, pobj))
+                elif ent[0] == "global":
+                    args.append(ent[1])
+                else:
+                    a_ = amap[ent[3]]
+                    if not isinstance(a_, ast.Name):
+                        raise FnError("%s: unit argument of %s is not a name" % (name, callee))
+                    args.append(TABLE_SHORT[ent[1]] + "_" + a_.id)
+            return "(%s %s)" % (LEAN_NAME[callee], " ".join(args))
+        raise FnError("%s: unsupported expression %s" % (name, ast.dump(e)[:80]))
+
+    done = []
+    for name in FUNCS:
+        if name not in fns:
+            errors.append("function %s not found" % name)
+            continue
+        try:
+            if name not in sigs:
+                build_sig(name)
+            sig = sigs[name]
+            fn = fns[name]
+            pobj = "p" if name == "units_convert_particle" else None
+            params = [lean_param(e) for e in sig if not (e[0] == "val" and e[1] == pobj)]
+            body = []
+            locs = set()
+            ret = None
+            for st in fn.body:
+                if isinstance(st, ast.Expr) and isinstance(st.value, ast.Constant):
+                    continue                       # docstring
+                if isinstance(st, ast.Assign) and len(st.targets) == 1 and isinstance(st.targets[0], ast.Tuple):
+                    continue                       # unpacking of a units tuple (handled by the signature)
+                if isinstance(st, ast.Assign) and len(st.targets) == 1 and isinstance(st.targets[0], ast.Name):
+                    body.append("  let %s := %s" % (st.targets[0].id, expr(st.value, name, locs, pobj)))
+                    locs.add(st.targets[0].id)
+                    continue
+                if pobj and isinstance(st, ast.Assign) and len(st.targets) == 1 and isinstance(st.targets[0], ast.Attribute) \
+                        and isinstance(st.targets[0].value, ast.Name) and st.targets[0].value.id == pobj and st.targets[0].attr in PFIELDS:
+                    body.append("  let %s : PData K := { %s with %s := %s }" % (pobj, pobj, st.targets[0].attr, expr(st.value, name, locs, pobj)))
+                    continue
+                if isinstance(st, ast.Return) and ret is None:
+                    ret = expr(st.value, name, locs, pobj) if not (pobj and isinstance(st.value, ast.Name) and st.value.id == pobj) else pobj
+                    continue
+                raise FnError("%s: unsupported statement %s" % (name, ast.dump(st)[:80]))
+            if ret is None:
+                raise FnError("%s: no return" % name)
+            if pobj:
+                hdr = "def %s (p : PData K) (%s : K) : PData K :=" % (LEAN_NAME[name], " ".join(params))
+            else:
+                hdr = "def %s (%s : K) : K :=" % (LEAN_NAME[name], " ".join(params))
+            out.append("/-- `%s(%s)` of rebound/units.py, statement by statement -/" % (name, ", ".join(a.arg for a in fn.args.args)))
+            out.append(hdr)
+            out.extend(body)
+            out.append("  " + ret)
+            out.append("")
+            done.append(name)
+        except FnError as ex:
+            errors.append(str(ex))
+        except Exception as ex:
+            errors.append("%s: %r" % (name, ex))
+    L = ["import RV.Model.Units",
+         "/- GENERATED by rv/extract_c20.py from the function bodies of rebound/units.py — do not edit.",
+         "   A unit-name parameter `u` used as `tab[u]` is the parameter `X_u` (the SI value of that unit). -/",
+         "namespace RV.Gen.C20Fns", "open RV RV.Units", "variable {K : Type} [ScalarP K]", ""]
+    L += out
+    L.append("def fnParseErrors : Nat := %d" % len(errors))
+    L.append("def fnTranslated : List String := [%s]" % ", ".join('"%s"' % d for d in done))
+    L.append("")
+    L.append("end RV.Gen.C20Fns")
+    return "\n".join(L) + "\n", errors, done
+
+
 if __name__ == "__main__":
     import sys
-    txt, p, ref = generate(sys.argv[1] if len(sys.argv) > 1 else "/repo")
-    sys.stdout.write(txt)
-    sys.stderr.write("errors: %s\n" % p["errors"])
+    _args = [a for a in sys.argv[1:] if not a.startswith("--")]
+    _repo = _args[0] if _args else "/repo"
+    if "--fns" in sys.argv:
+        t2, errs, done = translate_functions(os.path.join(_repo, "rebound", "units.py"))
+        sys.stdout.write(t2)
+        sys.stderr.write("fn errors: %s done: %s\n" % (errs, done))
+    else:
+        txt, p, ref = generate(_repo)
+        sys.stdout.write(txt)
+        sys.stderr.write("errors: %s\n" % p["errors"])
